@@ -45,6 +45,16 @@ Theorem C09_protocol_shape : shape_ok lf_shape = true.
 Proof. vm_compute. reflexivity. Qed.
 Print Assumptions C09_protocol_shape.
 
+(* (a'') a retained message is REPLACED in one store: provider.retain removes only for an empty payload (what the
+   searches, which take no lock, would see between a removal and an insertion is a topic without its retained
+   message - a state no sequential history produces).  Read from the source on every run. *)
+Open Scope string_scope.
+Eval vm_compute in lf_retain_remove_guards.
+Theorem C09_retained_replaced_in_one_store : lf_retain_remove_guards = ["len(t.Payload()) == 0"].
+Proof. vm_compute. reflexivity. Qed.
+Close Scope string_scope.
+Print Assumptions C09_retained_replaced_in_one_store.
+
 (* (b) for every initial heap, every set of operations and EVERY schedule *)
 Theorem C09_mutual_exclusion : forall h ops sched,
   let c := run (start lf_writers_locked h ops) sched in
